@@ -24,6 +24,7 @@ INTERNAL_FRAME_WRITES = {
     # (unit, key) bookkeeping writes that legitimately address another frame's own map
     ('core._glom', 'core.LAST_CHILD_SCOPE'), ('core._glom', 'core.CHILD_ERRORS'), ('core._glom', 'core.CUR_ERROR'),
     ('core.chain_child', 'core.NO_PYFRAME'), ('core.chain_child', 'core.CHILD_ERRORS'),
+    ('core.chain_child', 'core.MODE'),      # the recycler's mode reset demanded by C08.3
 }
 
 
